@@ -168,6 +168,18 @@ def tables(repo):
     t.append("")
     t.append("end Cinco.Generated")
     changed = _write("Tables.lean", "\n".join(t) + "\n")
+    import regex
+    try:
+        h_ast, n_ast = regex.to_ast(host_re), regex.to_ast(nb_re)
+    except Exception as e:  # noqa
+        raise Unknown("hostname regexes use syntax outside the modelled regex fragment: %s" % e)
+    r = ["import Cinco.Basic.Regex", "/- GENERATED by harness/extract.py from /repo on every run — do not edit. -/",
+         "namespace Cinco.Generated", "open Cinco.Regex", "",
+         "/-- HostnameField.HOSTNAME_REGEX = %s -/" % host_re.replace("-/", "- /"),
+         "def hostnameRe : Re := " + regex.to_lean(h_ast),
+         "/-- HostnameField.NETBIOS_REGEX = %s -/" % nb_re.replace("-/", "- /"),
+         "def netbiosRe : Re := " + regex.to_lean(n_ast), "", "end Cinco.Generated"]
+    _write("Regexes.lean", "\n".join(r) + "\n")
     return {"Tables.lean": {"changed": changed, "trueValues": true_v, "falseValues": false_v, "formats": [f[0] for f in formats],
                             "algorithms": [a[0] for a in algs]}}
 
